@@ -59,6 +59,24 @@ def empty_range_exit(top, m):
     return False
 
 
+def nothing_to_do(top):
+    """a path of clean_expired_values / dynamically_age / a purge that leaves at once because the container is empty: no loop, no
+    state effect, returns 0 (literally or through a count that was initialised to 0 and never stepped)"""
+    if top.loops or top.state_effects():
+        return False
+    empty = any(lift.emptiness(c) is False for c in top.conds)
+    if not empty:
+        return False
+    r = top.ret
+    if r == ('int', 0):
+        return True
+    if isinstance(r, tuple) and r and r[0] == 'var':
+        v = tally_var(r)
+        ws = local_writes(top, v)
+        return len(ws) == 1 and ws[0].val == ('int', 0)
+    return False
+
+
 def feasible_iters(segs):
     out = []
     for s in segs:
